@@ -607,6 +607,39 @@ def main(tier):
                 chk.add_failure({"history": f"to_json of {t!r} whose ne constant is the predicate {c!r}"}, {"what": "a constant that is a predicate is not kept as the constant", "complaints": bad[:3], "json": repr(j)[:300]}, None)
     chk.evaluations += pc
     chk.extra["predicate_valued_constants"] = pc
+    # 3b3. the caller owns what to_json returns: it writes into every dictionary of a result (placeholders included), then renders the
+    #     same tree and other trees -- each new result is the rendering of its tree, untouched by what was done to earlier results
+    def _scribble(j, depth=0):
+        if isinstance(j, dict) and depth < 50:
+            for v in list(j.values()):
+                _scribble(v, depth + 1)
+            j["scribbled"] = object()
+
+    from predicate import eq_p as _eq18, ge_p as _ge18, is_str_p as _str18
+
+    own = [("eq_p(1)", lambda: _eq18(1)), ("is_int_p | ge_p(2)", lambda: is_int_p | _ge18(2)), ("~is_str_p & a", lambda: ~_str18 & NamedPredicate(name="a")), ("all_p(eq_p(1)) ^ ne_p(1)", lambda: all_p(_eq18(1)) ^ ne_p(1)),
+           ("a | b", lambda: NamedPredicate(name="a") | NamedPredicate(name="b")), ("fn_p(len) & always_true_p", lambda: fn_p(len) & always_true_p)]
+    own_n = 0
+    for d1, mk1 in own:
+        t1 = mk1()
+        try:
+            _scribble(to_json(t1))
+        except Exception:  # noqa: BLE001
+            continue
+        for d2, mk2 in [(d1 + " (the same object)", lambda t1=t1: t1)] + own:
+            own_n += 1
+            t2 = mk2()
+            hist = {"history": f"j = to_json({d1}); the caller writes into every dictionary of j; to_json({d2})"}
+            try:
+                j2 = to_json(t2)
+            except Exception as e:  # noqa: BLE001
+                chk.add_failure(hist, {"what": f"to_json raised {type(e).__name__}"}, None)
+                continue
+            bad = judge(t2, j2)
+            if bad:
+                chk.add_failure(hist, {"what": "a later rendering shows what a caller did to an earlier result", "complaints": bad[:3], "json": repr(j2)[:300]}, None)
+    chk.evaluations += own_n
+    chk.extra["caller_owned_result_histories"] = own_n
     # 3c. user-defined subclasses of the node classes (a class statement that only adds a method / a repr): a node of a derived
     #     class is rendered as the kind it is, exactly like a node of the base class with the same fields
     import dataclasses
